@@ -13,6 +13,10 @@ U3  changing one option (P, x, S_elements, use_references, verbose, rev, act, ..
 RA  online invariant at the return of pmutt._get_R_adj: the factor handed to the getters is
     R_SI(unit) / M(mass unit)  (2e-6)
 
+Histories (kind 'history'): the same U1 at every evaluation on live objects whose composition is edited in
+place (attribute, held reference, dict handed out by to_dict), re-assigned, with A->B->A unit sequences and a
+second object alive; mech['history'] names the edit since the unit was last used.
+
 A violation's mech names class, getter, unit family, option, T kind and clause.  The option
 of a U1 violation is found by ablation (the option whose removal cures the mismatch; 'none'
 if the mismatch is there without any option).
@@ -36,7 +40,8 @@ NT_RULE = ('case = one object (mode / StatMech +-references +-misc models / Nasa
            'verbose, rev, act, include_ZPE, del_m, per-species block) or a per-mass unit; distinct = distinct '
            'canonical JSON')
 REQUIRED_ORACLES = ['U1', 'U2', 'U3']
-ASSUMPTIONS = ['unit strings = the 16 keys documented for pmutt.constants.R; energies take them without "/K"; '
+ASSUMPTIONS = ['histories: `elements` is a public, mutable dict attribute; "the species\' molar mass" is that of the composition at the time of the call, however it got there (in-place edit or re-assignment)',
+               'unit strings = the 16 keys documented for pmutt.constants.R; energies take them without "/K"; '
                'per-mass forms replace /mol by /g or /kg and exist only for molar units and objects with a composition',
                'relational oracle: the dimensionless twin (get_XoR / get_XoRT of the same object, same keyword '
                'arguments) is trusted (its correctness is C01/C02/C08); when the twin itself raises or is not '
@@ -162,6 +167,12 @@ def _required_classes():
         req += ['og:%s.get_E_act:del_m=%s' % (r, v) for v in ('None', '1', '0', '-1')]
         req += ['og:%s.%s:rev' % (r, g) for g in ('get_H_act', 'get_G_act', 'get_delta_H', 'get_delta_G', 'get_S_act')]
         req += ['og:%s.%s:act' % (r, g) for g in ('get_delta_H', 'get_delta_G', 'get_delta_S')]
+    # histories: a per-mass unit asked again (or for the first time) after each kind of composition edit
+    for cl in ('StatMech', 'Nasa', 'Nasa9', 'Shomate'):
+        req += ['hist:%s:%s:%s' % (cl, e, w) for e in ('inplace_set', 'inplace_add', 'inplace_del', 'inplace_update',
+                                                       'reassign') for w in ('same_unit', 'new_unit')]
+        req += ['hist:%s:none:same_unit' % cl, 'hist:%s:two_objects' % cl]
+        req += ['hist:%s:via:%s' % (cl, v) for v in ('attr', 'held_ref', 'to_dict')]
     return req
 
 
@@ -453,7 +464,86 @@ def gen_case(rng, tier, kind=None, units=None, force_opts=None, **fix):
     return spec
 
 
+HIST_CLASSES = {'statmech': 'StatMech', 'nasa': 'Nasa', 'nasa9': 'Nasa9', 'shomate': 'Shomate'}
+HIST_EDITS = ['inplace_set', 'inplace_add', 'inplace_del', 'inplace_update', 'reassign']
+HIST_VIAS = ['attr', 'held_ref', 'to_dict']
+HIST_COUNTS = [1, 2, 3, 5, 0.5, 1.8, 12]
+
+
+def _draw_edit(rng, comp, k, how=None, via=None):
+    """one edit of the composition of live object k, valid for the current composition `comp` (which is
+    updated: the generator keeps the same model of the history as the runner)"""
+    how = how or rng.choice(HIST_EDITS)
+    if how == 'inplace_del' and len(comp) < 2:
+        how = 'inplace_set'
+    absent = [e for e in S.ELEMENT_POOL if e not in comp]
+    step = {'op': 'edit', 'obj': k, 'how': how, 'via': via or rng.choice(HIST_VIAS)}
+    if how == 'inplace_set':
+        el = rng.choice(sorted(comp))
+        n = rng.choice([c for c in HIST_COUNTS if c != comp[el]])
+        step['changes'] = {el: n}
+        comp[el] = n
+    elif how == 'inplace_add':
+        step['changes'] = {rng.choice(absent): rng.choice(HIST_COUNTS)}
+        comp.update(step['changes'])
+    elif how == 'inplace_del':
+        step['el'] = rng.choice(sorted(comp))
+        del comp[step['el']]
+    elif how == 'inplace_update':
+        el = rng.choice(sorted(comp))
+        step['changes'] = {el: rng.choice([c for c in HIST_COUNTS if c != comp[el]]),
+                           rng.choice(absent): rng.choice(HIST_COUNTS)}
+        comp.update(step['changes'])
+    else:
+        new = S.gen_elements(rng)
+        if new == comp:
+            new[sorted(new)[0]] += 1
+        step['new'] = new
+        step.pop('via')
+        comp.clear()
+        comp.update(new)
+    return step
+
+
+def gen_history(rng, tier, sub=None, script=None):
+    """History on live objects: evaluate in a unit -> edit the composition (in place through the attribute, a
+    reference held since construction or the dict handed out by to_dict; or re-assign it) -> evaluate again in
+    the same and in other units; unit A -> B -> A; two objects alive with different compositions."""
+    sub = sub or rng.choice(['statmech', 'statmech', 'nasa', 'nasa9', 'shomate'])
+    base = gen_case(rng, tier, kind=sub, with_elements=True, el_style=rng.choice(['int', 'int', 'fractional']),
+                    units=['J/mol/K'])
+    pm = rng.sample(PER_MASS, 3)
+    pool = {'A': pm[0], 'B': pm[1], 'C': pm[2], 'M': rng.choice(MOLAR), 'E': rng.choice(PER_MOLECULE)}
+    el1 = S.gen_elements(rng)
+    comps = [dict(base['obj']['elements']), dict(el1)]
+    steps = []
+    if script is None:
+        two = rng.random() < 0.35
+        steps.append({'op': 'eval', 'obj': 0, 'unit': pool['A']})
+        if two:
+            steps.append({'op': 'eval', 'obj': 1, 'unit': pool['A']})
+        for _ in range(rng.randint(4, 9)):
+            k = rng.choice([0, 0, 1]) if two else 0
+            if rng.random() < 0.4:
+                steps.append(_draw_edit(rng, comps[k], k))
+            else:
+                steps.append({'op': 'eval', 'obj': k, 'unit': pool[rng.choice('AAABBCME')]})
+        steps.append({'op': 'eval', 'obj': 0, 'unit': pool['A']})
+        steps.append({'op': 'eval', 'obj': 0, 'unit': pool[rng.choice('BC')]})
+        if two:
+            steps.append({'op': 'eval', 'obj': 1, 'unit': pool['A']})
+    else:
+        for st in script:
+            if st[0] == 'eval':
+                steps.append({'op': 'eval', 'obj': st[1], 'unit': pool[st[2]]})
+            else:
+                steps.append(_draw_edit(rng, comps[st[1]], st[1], how=st[2], via=st[3] if len(st) > 3 else None))
+    return {'kind': 'history', 'cls': base['cls'], 'base': base, 'elements1': el1, 'steps': steps}
+
+
 def generate(rng, tier):
+    if rng.random() < 0.08:
+        return gen_history(rng, tier)
     return gen_case(rng, tier)
 
 
@@ -513,6 +603,21 @@ def directed(tier):
         for j, dm in enumerate((None, 0, -1, 1)):
             D.append(gen_case(R('rx5%d%s%s' % (j, rc, fl)), tier, 'reaction', units='ALL', force_opts=['del_m'], rcls=rc,
                               flavor=fl, ts=True, cov=False, del_m=dm))
+    # histories on live objects (per class that has a composition)
+    for k in HIST_CLASSES:
+        for j, (how, via) in enumerate((('inplace_set', 'attr'), ('inplace_add', 'held_ref'), ('inplace_del', 'to_dict'),
+                                        ('inplace_update', 'attr'), ('reassign', None), ('inplace_set', 'to_dict'),
+                                        ('inplace_add', 'attr'), ('inplace_del', 'held_ref'))):
+            D.append(gen_history(R('h%d%s' % (j, k)), tier, k,
+                                 [('eval', 0, 'A'), ('eval', 0, 'M'), ('edit', 0, how, via), ('eval', 0, 'A'),
+                                  ('eval', 0, 'B'), ('eval', 0, 'M'), ('eval', 0, 'E')]))
+        D.append(gen_history(R('haba' + k), tier, k, [('eval', 0, 'A'), ('eval', 0, 'B'), ('eval', 0, 'A'),
+                                                      ('eval', 0, 'M'), ('eval', 0, 'A'), ('eval', 0, 'C')]))
+        D.append(gen_history(R('htwo' + k), tier, k,
+                             [('eval', 0, 'A'), ('eval', 1, 'A'), ('edit', 0, 'inplace_set', 'attr'), ('eval', 1, 'A'),
+                              ('eval', 0, 'A'), ('edit', 1, 'inplace_add', 'held_ref'), ('eval', 0, 'A'),
+                              ('eval', 1, 'A'), ('eval', 1, 'B'), ('edit', 0, 'reassign'), ('eval', 1, 'A'),
+                              ('eval', 0, 'A')]))
     return D
 
 
@@ -833,8 +938,120 @@ def t_kind(T):
     return 'default' if T is None else ('array' if isinstance(T, list) else 'scalar')
 
 
+def apply_edit(obj, held, st):
+    """-> (held reference, via actually used)"""
+    if st['how'] == 'reassign':
+        obj.elements = dict(st['new'])
+        return obj.elements, 'reassign'
+    via = st['via']
+    if via == 'held_ref':
+        d = held
+    elif via == 'to_dict':
+        d = None
+        try:
+            d = obj.to_dict().get('elements')
+        except Exception:                                        # noqa
+            pass
+        if d is not obj.elements:                                # to_dict hands out a copy: nothing to alias
+            d, via = obj.elements, 'attr'
+    else:
+        d = obj.elements
+    if d is not obj.elements:                                    # the held dict was detached meanwhile
+        d, via = obj.elements, 'attr'
+    if st['how'] == 'inplace_del':
+        del d[st['el']]
+    elif st['how'] == 'inplace_update':
+        d.update(st['changes'])
+    else:
+        for e, n in st['changes'].items():
+            d[e] = n
+    return held, via
+
+
+def run_history(spec, ctx):
+    """Same oracle (U1) at every evaluation of the history; the molar mass is that of the composition at the
+    time of the call (the runner keeps its own model of the composition)."""
+    base = spec['base']
+    n_obj = 1 + max(st['obj'] for st in spec['steps'])
+    subs, comps = [], []
+    for k in range(n_obj):
+        b = base if k == 0 else dict(base, obj=dict(base['obj'], elements=dict(spec['elements1'])), el_type='py',
+                                     refs=None)
+        subs.append(Subject(b))
+        comps.append(dict(b['obj']['elements']))
+    cls = subs[0].cls
+    held = [sj.obj.elements for sj in subs]
+    since = [dict() for _ in subs]          # per object: unit -> kinds of edit since the unit was last used
+    last_edit = ['none'] * n_obj
+    T, opts = base['T'], base['opts']
+    tk = t_kind(T)
+    ctx.nontrivial()
+    if n_obj > 1:
+        ctx.cls('hist:%s:two_objects' % cls)
+    x = ctx.extra
+    for st in spec['steps']:
+        k = st['obj']
+        sj = subs[k]
+        if st['op'] == 'edit':
+            held[k], via = apply_edit(sj.obj, held[k], st)
+            if st['how'] == 'inplace_del':
+                del comps[k][st['el']]
+            elif st['how'] == 'reassign':
+                comps[k] = dict(st['new'])
+            else:
+                comps[k].update(st['changes'])
+            last_edit[k] = st['how']
+            for u in since[k]:
+                since[k][u] = st['how']
+            if via != 'reassign':
+                ctx.cls('hist:%s:via:%s' % (cls, via))
+            continue
+        u = st['unit']
+        fam = unit_info(u)[0]
+        if u in since[k]:
+            tag = '%s:same_unit' % since[k][u]
+        else:
+            tag = '%s:new_unit' % last_edit[k]
+        since[k][u] = 'none'
+        if fam == 'per_mass':
+            ctx.cls('hist:%s:%s' % (cls, tag))
+        _, fp, _ = factor(u, comps[k])
+        for g in sj.getters:
+            ev = Eval(sj, g, T, opts, ctx)
+            if ev.twin_exc is not None or not ev.finite:
+                x['twin_raised_hist'] = x.get('twin_raised_hist', 0) + 1
+                continue
+            m = {'class': cls, 'getter': g['name'], 'unit_family': fam, 'T_kind': tk, 'clause': 'U1',
+                 'option': '+'.join(sj.present(g, opts)) or 'none', 'history': tag + (':other_alive' if n_obj > 1 else '')}
+            s_, d = ev.dim(u)
+            if s_ == 'exc':
+                if m['option'] != 'none' and u1_ok(Eval(sj, g, T, {}, ctx), u, comps[k]) is False:
+                    m['option'] = 'none'
+                ctx.fail('U1', dict(m, exc=type(d).__name__), message=str(d)[:300], where=core._tb_where(d),
+                         unit=call_unit(g, u), composition=comps[k], options=opts)
+                continue
+            want = ev.want(fp)
+            e = rel_err(ctx, d, want)
+            if e <= TOL1:
+                ctx.held('U1')
+                if e > ctx.max_err.get('U1', 0.0):
+                    ctx.max_err['U1'] = e
+            else:
+                # is the mismatch there without any option? (then the options are not part of the mechanism)
+                if m['option'] != 'none' and u1_ok(Eval(sj, g, T, {}, ctx), u, comps[k]) is False:
+                    m['option'] = 'none'
+                ctx.fail('U1', m, err=e, tol=TOL1, got=d, want=want, unit=call_unit(g, u), composition=comps[k],
+                         molar_mass=molar_mass(comps[k]), options=opts)
+    # the model of the composition and the object must agree at the end (harness self-check)
+    for k, sj in enumerate(subs):
+        if {e: float(n) for e, n in sj.obj.elements.items()} != {e: float(n) for e, n in comps[k].items()}:
+            raise core.HarnessError('history model out of step with the object')
+
+
 def run_case(spec, ctx):
     import numpy as np
+    if spec['kind'] == 'history':
+        return run_history(spec, ctx)
     subj = Subject(spec)
     T = spec['T']
     opts = spec['opts']
